@@ -627,6 +627,8 @@ def mk_history(rng, tasks, target, focus, strategies):
             inv.setdefault("outer_env", {}).update(rng.choice(realrun_envs()))
         if rng.random() < 0.12:
             inv["proc"] = {"one_cpu": True, "cpu_index": rng.randrange(64)}
+        if rng.random() < 0.06:
+            inv.setdefault("proc", {})["block_sigchld"] = True   # inherited signal mask of a supervisor
         if focus == "wide":
             inv["jobs"] = rng.choice([1, 2, 2, 3, 3, 4, 6])
             if rng.random() < 0.35:
